@@ -10,6 +10,8 @@ else is the class "local".  For each pair of items (A, B) where on the reviewed 
 write of B (B is reachable from A in the CFG and A is not reachable from B), that precedence is frozen in
 tables/transcripts.json; a frozen precedence that no longer holds is a violation.
 """
+import re
+
 from sxlib import *
 from core import Obligation, load_table, props_of_function
 
@@ -34,23 +36,69 @@ def _pos_key(item):
     return item.split("(")[0]
 
 
-def transcripts(prog):
-    """{function: {hash object: [(item, block, elem index, loc)]}}"""
-    out = {}
-    for f in prog.functions.values():
-        if not f.blocks or not f.file.startswith("src/") or f.file.endswith("tests_impl.h") or f.file.startswith(("src/bench", "src/tests", "src/ctime")):
-            continue
-        per = {}
-        for b in f.blocks.values():
-            for el in b.elems:
-                if not el.top:
-                    continue
-                for c in calls_in(el.e):
-                    w = WRITERS.get(callee_name(c))
-                    if not w or len(c[3]) <= max(w):
+_CALL_ORDER = {}      # call id -> set of (k1, k2): inside that helper call, write k1 strictly precedes write k2
+
+
+def _in_scope(f):
+    return bool(f.blocks) and f.file.startswith("src/") and not f.file.endswith("tests_impl.h") and not f.file.startswith(("src/bench", "src/tests", "src/ctime"))
+
+
+def _raw_writes(prog, f, memo, depth=0):
+    """{hash object: [(item, block, elem index, loc, call id, k)]} — direct writes, plus the writes of helpers that are
+    handed the hash object in a parameter (their items mapped back through the call's arguments), so that moving a few
+    writes into a static helper does not change the transcript the rule sees."""
+    if f.name in memo:
+        return memo[f.name]
+    memo[f.name] = {}
+    per = {}
+    for b in f.blocks.values():
+        for el in b.elems:
+            if not el.top:
+                continue
+            for c in calls_in(el.e):
+                cn = callee_name(c)
+                w = WRITERS.get(cn)
+                if w:
+                    if len(c[3]) <= max(w):
                         continue
                     h = show(strip(c[3][w[0]]))
-                    per.setdefault(h, []).append((_item(f, c[3][w[1]]), b.id, el.idx, c[2]))
+                    per.setdefault(h, []).append((_item(f, c[3][w[1]]), b.id, el.idx, c[2], None, 0))
+                    continue
+                g = prog.functions.get(cn)
+                if g is None or not _in_scope(g) or g.name == f.name or depth > 2 or g.file == "src/hash_impl.h":
+                    continue          # (the hash primitive's own padding / key-schedule writes are not transcript items)
+                gw = _raw_writes(prog, g, memo, depth + 1)
+                for gh, ws in gw.items():
+                    if gh not in g.param_index or g.param_index[gh] >= len(c[3]):
+                        continue          # the helper hashes into its own object, not into one it was handed
+                    h = show(strip(c[3][g.param_index[gh]]))
+                    cid = "%s@%s" % (g.name, c[2])
+                    order = set()
+                    for i, x in enumerate(ws):
+                        for j, y in enumerate(ws):
+                            if i != j and _before(g, x, y):
+                                order.add((i, j))
+                    _CALL_ORDER[cid] = order
+                    for k, x in enumerate(ws):
+                        it = x[0]
+                        m = re.match(r"param(\d+)\(", it)
+                        if m and int(m.group(1)) < len(c[3]):
+                            it = _item(f, c[3][int(m.group(1))])
+                        elif m:
+                            it = "local"
+                        per.setdefault(h, []).append((it, b.id, el.idx, c[2], cid, k))
+    memo[f.name] = per
+    return per
+
+
+def transcripts(prog):
+    """{function: {hash object: [(item, block, elem index, loc, call id, k)]}}"""
+    out = {}
+    memo = {}
+    for f in prog.functions.values():
+        if not _in_scope(f):
+            continue
+        per = _raw_writes(prog, f, memo)
         per = {h: v for h, v in per.items() if len({_pos_key(x[0]) for x in v}) >= 2}
         if per:
             out[f.name] = per
@@ -58,9 +106,11 @@ def transcripts(prog):
 
 
 def _before(f, a, b):
-    """Does write a (item, blk, idx, loc) strictly precede write b on every path (b reachable from a, a not reachable from b)?"""
+    """Does write a (item, blk, idx, loc, call id, k) strictly precede write b on every path (b reachable from a, a not reachable from b)?"""
     if a[1] == b[1]:
         in_loop = f.is_loop_block(a[1])
+        if a[2] == b[2] and a[4] is not None and a[4] == b[4]:
+            return (a[5], b[5]) in _CALL_ORDER.get(a[4], ()) and not in_loop
         return a[2] < b[2] and not in_loop
     ra = f.reachable_from(a[1])
     rb = f.reachable_from(b[1])
@@ -97,7 +147,7 @@ def obligations(prog):
         fname, h, A, B = ent["function"], ent["hash"], ent["first"], ent["then"]
         f = prog.functions.get(fname)
         if f is None:
-            raise AnalysisBroken("R-ORD: function %s (tables/transcripts.json) vanished" % fname)
+            continue          # a static helper was renamed / inlined: its callers' transcripts carry the items; the floor decides
         oid = "R-ORD:%s:%s:%s<%s" % (fname, h.replace(" ", ""), A, B)
         text = "in the transcript absorbed into %s, %s must be hashed before %s" % (h, ent.get("first_name", A), ent.get("then_name", B))
         k = (fname, h, A, B)
